@@ -79,6 +79,7 @@ type Run struct {
 	rtypes       map[types.Type]*Object // via canonical type
 	strLits      map[string]*Object
 	locks        map[lockKey]int
+	calKnown     map[int][2]int64 // time model: value ranges of calendar terms it produced
 	atomicOp     bool             // inside an atomic store (exempt from the shared-write rule)
 	atomicLoaded map[lockKey]bool // shared pointer locations atomically loaded (non-nil) by this operation
 	poolItems    map[lockKey][]Value
